@@ -1,1 +1,72 @@
-From LV Require Import Base.Prelude Forest.ExplicitToTree Forest.ExplicitCheck.
+(* C04 - ambiguity='explicit' enumerates exactly all derivations.
+   Property theorems only; proofs are in Forest/ExplicitToTree_proofs.v (layer B: forest -> trees) and
+   Forest/ExplicitBuild_proofs.v (layer A: parser -> forest).  The models are hand-written
+   (Forest/ExplicitToTree.v, Forest/ExplicitBuild.v) and tied to lark on every run by harness/props/C04.py. *)
+From Coq Require Import String Ascii Bool Arith List.
+From LV Require Import Base.Prelude Forest.ExplicitToTree Forest.ExplicitCheck Forest.ExplicitToTree_proofs.
+Import ListNotations.
+Local Open Scope string_scope.
+Local Open Scope list_scope.
+
+(* Layer B.  For every acyclic forest of the shape the Earley parser builds (root_okb: the decidable
+   well-formedness predicate of Forest/ExplicitCheck.v, evaluated on every forest the harness exports):
+   a tree is obtained by choosing one alternative at every _ambig of the model's explicit tree iff it is the
+   shape (plain callback chain: token filtering, _rule inlining, None placeholders, ?rule, alias) of a
+   derivation stored in the forest.  Covers the _iambig/_inter machinery, PackedData, _collapse_ambig,
+   AmbiguousExpander's cartesian product and AmbiguousIntermediateExpander's nested collapse. *)
+Theorem C04_B_expand_exact n :
+  root_okb n = true ->
+  forall t, In t (expand (to_tree_explicit n)) <-> In t (map shape (derivs n)).
+Proof. exact (B_expand_exact n). Qed.
+Print Assumptions C04_B_expand_exact.
+
+(* the explicit tree contains no _iambig/_inter leftovers and no _ambig without alternatives, and the forest
+   has at least one derivation *)
+Theorem C04_B_tree_tidy n :
+  root_okb n = true -> gdb (to_tree_explicit n) = true /\ derivs n <> [].
+Proof. exact (B_tree_tidy n). Qed.
+Print Assumptions C04_B_tree_tidy.
+
+(* CollapseAmbiguities (as repaired in /repo): whenever it returns, it returns the expansion, in order;
+   it returns on every tree without an empty _ambig, in particular on every explicit tree of layer B. *)
+Theorem C04_collapse_is_expand t l : collapse t = Ok l -> l = expand t.
+Proof. exact (collapse_ok_is_expand t l). Qed.
+Print Assumptions C04_collapse_is_expand.
+
+Theorem C04_collapse_total t : noempty t = true -> collapse t = Ok (expand t).
+Proof. exact (collapse_total t). Qed.
+Print Assumptions C04_collapse_total.
+
+Theorem C04_collapse_explicit n :
+  root_okb n = true -> collapse (to_tree_explicit n) = Ok (expand (to_tree_explicit n)).
+Proof. exact (collapse_explicit n). Qed.
+Print Assumptions C04_collapse_explicit.
+
+(* Finding F6 (and its residue F6b): the utility of the lark 1.3.1 snapshot raises on a None placeholder child
+   although the tree has a well-defined expansion; the repaired model does not. *)
+Theorem C04_collapse_none_refuted :
+  collapse_old false false f6_tree = AssertFail /\ expand f6_tree = [Nd "start" [Nn; Nd "b" [Tk "A" "a"; Tk "C" "c"]]]
+  /\ collapse_old true false f6b_tree = AssertFail
+  /\ expand f6b_tree = [Nd "start" [Nd "b" []; Tk "A" "a"]; Nd "start" [Nn; Tk "A" "a"]]
+  /\ collapse f6_tree = Ok (expand f6_tree) /\ collapse f6b_tree = Ok (expand f6b_tree).
+Proof. exact collapse_none_refuted. Qed.
+Print Assumptions C04_collapse_none_refuted.
+
+(* Non-vacuity: the forest lark builds for
+     start: _i q _i     _i: A | A A     ?q: A? "a"     A: "a"          on "aaaa" (dynamic lexer)
+   (exported by the harness) satisfies the hypothesis, its explicit tree is lark's tree, and its three
+   expansions are the shapes of its three derivations. *)
+Definition ex_r0 := mkX "start"%string "start"%string false false false [(mkSym "_i"%string false false); (mkSym "q"%string false false); (mkSym "_i"%string false false)] [].
+Definition ex_r1 := mkX "_i"%string "_i"%string false false false [(mkSym "A"%string true false); (mkSym "A"%string true false)] [].
+Definition ex_r2 := mkX "q"%string "q"%string false true false [(mkSym "A"%string true true)] [].
+Definition ex_r3 := mkX "_i"%string "_i"%string false false false [(mkSym "A"%string true false)] [].
+Definition ex_r4 := mkX "q"%string "q"%string false true false [(mkSym "A"%string true false); (mkSym "A"%string true true)] [].
+Definition ex_forest : node :=
+  (SymN (LSym "start"%string) [(Pack ex_r0 (Some (SymN (LInter ex_r0 2%nat) [(Pack ex_r0 (Some (SymN (LInter ex_r0 1%nat) [(Pack ex_r0 None (Some (SymN (LSym "_i"%string) [(Pack ex_r1 (Some (SymN (LInter ex_r1 1%nat) [(Pack ex_r1 None (Some (TokN "A"%string "a"%string)))])) (Some (TokN "A"%string "a"%string)))])))])) (Some (SymN (LSym "q"%string) [(Pack ex_r2 None (Some (TokN "A"%string "a"%string)))]))); (Pack ex_r0 (Some (SymN (LInter ex_r0 1%nat) [(Pack ex_r0 None (Some (SymN (LSym "_i"%string) [(Pack ex_r3 None (Some (TokN "A"%string "a"%string)))])))])) (Some (SymN (LSym "q"%string) [(Pack ex_r4 (Some (SymN (LInter ex_r4 1%nat) [(Pack ex_r4 None (Some (TokN "A"%string "a"%string)))])) (Some (TokN "A"%string "a"%string)))])))])) (Some (SymN (LSym "_i"%string) [(Pack ex_r3 None (Some (TokN "A"%string "a"%string)))]))); (Pack ex_r0 (Some (SymN (LInter ex_r0 2%nat) [(Pack ex_r0 (Some (SymN (LInter ex_r0 1%nat) [(Pack ex_r0 None (Some (SymN (LSym "_i"%string) [(Pack ex_r3 None (Some (TokN "A"%string "a"%string)))])))])) (Some (SymN (LSym "q"%string) [(Pack ex_r2 None (Some (TokN "A"%string "a"%string)))])))])) (Some (SymN (LSym "_i"%string) [(Pack ex_r1 (Some (SymN (LInter ex_r1 1%nat) [(Pack ex_r1 None (Some (TokN "A"%string "a"%string)))])) (Some (TokN "A"%string "a"%string)))])))]).
+Definition ex_tree : tree :=
+  (Nd "_ambig"%string [(Nd "start"%string [(Tk "A"%string "a"%string); (Tk "A"%string "a"%string); (Nd "q"%string []); (Tk "A"%string "a"%string)]); (Nd "start"%string [(Tk "A"%string "a"%string); (Tk "A"%string "a"%string); (Tk "A"%string "a"%string)]); (Nd "start"%string [(Tk "A"%string "a"%string); (Nd "q"%string []); (Tk "A"%string "a"%string); (Tk "A"%string "a"%string)])]).
+
+Example C04_example :
+  root_okb ex_forest = true /\ to_tree_explicit ex_forest = ex_tree /\ length (expand ex_tree) = 3
+  /\ expand ex_tree = map shape (derivs ex_forest).
+Proof. repeat split; vm_compute; reflexivity. Qed.
